@@ -37,6 +37,13 @@ claimed.update({
 claimed["C09"]=dict(level="fault_enumeration", engine="E3 FaultEnum", technique="exhaustive fault-point enumeration: operation x every BEGIN/statement/COMMIT index x {driver error, cancelled context} through a database/sql driver wrapper",
    text="35 mutating operations (publish single/batch, create/delete/update topic and subscription, ack, nack with and without dead-letter move, modify-deadline 0 / positive spanning two subscriptions, pull empty / with messages / redelivery / with dead-letter move, stream ack+nack in one transaction, seek to time and snapshot, create/delete snapshot, dead-letter sweep, each of the 7 maintenance jobs through the production runOnce), each from a prepared state: the k-th BEGIN / SQL statement / COMMIT fails for EVERY k, with a driver error and with the request context cancelled at that point. Each faulted run must return an error, leave all five tables identical, close no registered waiter channel; a fault-free retry must end in the tables of the fault-free run.",
    note="an injected COMMIT failure really rolls back (commit-outcome-unknown is not modelled); SQLite only; a failed Pull may keep its separate activity refresh", ref="§6 C09")
+SCHED="stateless DFS over all interleavings of real goroutines at scheduler gates (controlled scheduler under testing/synctest), iterative preemption bound where stated"
+claimed["C10"]=dict(level="model_checking", engine="E2 SchedMC", technique=SCHED+"; gates at transaction boundaries in the SQL driver wrapper",
+   text="12 scenarios (publish to a topic with two subscriptions with the waiter on either or both; zero-deadline ModifyAckDeadline with ack ids spanning two subscriptions; ack of an ordered predecessor; nack that dead-letters an ordered predecessor; a pull / the sweep forwarding into the waiter's topic; a seek re-opening a message; two writers at once): ALL interleavings at transaction boundaries of the real blocking Pull (register, check, wait, re-register) with the real writers (commit, notify). Oracle at quiescence with ZERO virtual time elapsed: every waiter has returned its message, i.e. no wake-up was lost whatever the commit's position relative to the waiter's steps.",
+   note="SQLite BEGIN IMMEDIATE serialises transactions, so transaction-boundary interleavings are complete for this backend; PostgreSQL statement-level interleavings are out of reach (no server); StreamingPull waiters are covered under C11", ref="§6 C10")
+claimed["C18"]=dict(level="model_checking", engine="E2 SchedMC", technique=SCHED+"; gates at every lock acquisition, atomic operation and goroutine spawn via sync / sync/atomic shims",
+   text="The real faults.Set (sync and sync/atomic rewritten onto scheduler shims by the overlay, `go s.prune()` routed through the scheduler): 2-4 concurrent Check callers (once or twice each), counts 1-3, matching / non-matching / overlapping descriptions, a concurrent Current() reader, a concurrent Add; every interleaving up to the stated preemption bound (unbounded for 2 callers). Oracle: exactly min(total count, matching calls) calls fail, non-matching calls never fail, Current() never lists an exhausted fault and the remaining counts add up. Plus all 729x2 (description params, call params) pairs of a 3-key domain and request-field extraction through the production unary interceptor.",
+   note="sequentially consistent atomics assumed; data races on unsynchronised accesses would need the separate -race pass", ref="§6 C18")
 pending_reason="not claimed yet in this session: check under construction (see DESIGN.md §6); no alarm is raised for it"
 checks=[]
 for p in props:
@@ -59,6 +66,7 @@ m={
  "hooks":{"guard":"verif","enable":"go1.26.8 test -c -tags verif -vet=off -overlay /verif/.build/overlay/overlay.json (overlay adds export files and sync-shim rewrites; /repo sources are never modified for instrumentation)",
           "baseline_off_cmd":"/verif/baseline.sh","source_commits":[],"add_only":True},
  "engines":[
+  {"name":"E2 SchedMC","path":"/verif/mc/sched","serves_properties":["C04","C10","C12","C18"],"kind_free_text":"controlled cooperative scheduler for real goroutines (park at gates, synctest.Wait as settle detector) + stateless DFS with replayable choice prefixes and iterative preemption bounding"},
   {"name":"E3 FaultEnum","path":"/verif/mc/checks/c09_test.go","serves_properties":["C09"],"kind_free_text":"crash/fault point enumeration over the SQL statement stream of each operation (vsql driver wrapper)"},
   {"name":"E4 InputEnum","path":"/verif/mc/checks","serves_properties":[p for p in props if p in claimed and claimed[p]["engine"].startswith("E4")],"kind_free_text":"bounded-exhaustive input enumeration against independent references (filter evaluator / recogniser, expected-configuration record, live server subprocess)"},
   {"name":"E1 HistoryMC","path":"/verif/mc/hist","serves_properties":[p for p in props if p in claimed and claimed[p]["engine"].startswith("E1")],"kind_free_text":"explicit-state BFS over API histories executed on the real code; state = canonical table dump + model digest; 16 worker processes"},
